@@ -199,6 +199,7 @@ func c03(r *core.Report) {
 	c03Embed(r)
 	c03RefOnly(r)
 	c03Collect(r)
+	scratchEscapes(r, "C03.fresh", 1, "openapi3", "openapi2")
 }
 
 func lookupTag(tag, key string) (string, bool) {
